@@ -11,6 +11,7 @@ import (
 	"github.com/openkruise/rollouts/api/v1beta1"
 	"github.com/openkruise/rollouts/pkg/controller/batchrelease/control"
 	"github.com/openkruise/rollouts/pkg/util"
+	rolloutserrors "github.com/openkruise/rollouts/pkg/util/errors"
 	"github.com/openkruise/rollouts/pkg/verifrt"
 	"github.com/openkruise/rollouts/pkg/verifrt/symclient"
 	metav1 "k8s.io/apimachinery/pkg/apis/meta/v1"
@@ -19,43 +20,56 @@ import (
 )
 
 type c11Ctrl struct {
-	calls        []string
-	initErr      bool
-	upgradeErr   bool
-	ensureErr    bool
-	finalizeErr  bool
-	event        control.WorkloadEventType
-	info         *util.WorkloadInfo
-	syncErr      bool
+	calls       []string
+	initErr     bool
+	upgradeErr  bool
+	ensureErr   bool
+	finalizeErr bool
+	event       control.WorkloadEventType
+	info        *util.WorkloadInfo
+	syncErr     bool
+	errKind     int
 }
 
 var c11Err = fmt.Errorf("injected control-plane error")
 
+// fail: the error a failing control-plane call returns is of one of the kinds the control planes really produce:
+// a plain error, a RetryError ("not done yet, come back") or a BadRequestError.
+func (c *c11Ctrl) fail() error {
+	switch c.errKind {
+	case 1:
+		return rolloutserrors.NewRetryError(c11Err)
+	case 2:
+		return rolloutserrors.NewBadRequestError(c11Err)
+	}
+	return c11Err
+}
+
 func (c *c11Ctrl) Initialize() error {
 	c.calls = append(c.calls, "Initialize")
 	if c.initErr {
-		return c11Err
+		return c.fail()
 	}
 	return nil
 }
 func (c *c11Ctrl) UpgradeBatch() error {
 	c.calls = append(c.calls, "UpgradeBatch")
 	if c.upgradeErr {
-		return c11Err
+		return c.fail()
 	}
 	return nil
 }
 func (c *c11Ctrl) EnsureBatchPodsReadyAndLabeled() error {
 	c.calls = append(c.calls, "Ensure")
 	if c.ensureErr {
-		return c11Err
+		return c.fail()
 	}
 	return nil
 }
 func (c *c11Ctrl) Finalize() error {
 	c.calls = append(c.calls, "Finalize")
 	if c.finalizeErr {
-		return c11Err
+		return c.fail()
 	}
 	return nil
 }
@@ -135,6 +149,7 @@ func c11Round(phaseIdx int) {
 		st.CanaryStatus.NoNeedUpdateReplicas = &z
 	}
 	ctrl := &c11Ctrl{
+		errKind: verifrt.IntRange("ctrl.errKind", 0, 2),
 		initErr: verifrt.Bool("ctrl.initErr"), upgradeErr: verifrt.Bool("ctrl.upgradeErr"), ensureErr: verifrt.Bool("ctrl.ensureErr"),
 		finalizeErr: verifrt.Bool("ctrl.finalizeErr"), syncErr: verifrt.Bool("ctrl.syncErr"),
 		event: c11Events[verifrt.IntRange("ctrl.event", 0, len(c11Events)-1)],
